@@ -19,7 +19,7 @@ package mq
 //@   invariant #shape self.ctrlList != nil && self.reqList != nil && self.ctrlList != self.reqList && lwf(self.ctrlList) && lwf(self.reqList) && sleepers(self.cond) >= 0 && woken(self.cond) >= 0
 //@   invariant #allocated (forall e *list.Element :: { self.ctrlList.lmem[e] } self.ctrlList.lmem[e] ==> allocated(e)) && (forall e *list.Element :: { self.reqList.lmem[e] } self.reqList.lmem[e] ==> allocated(e))
 //@   invariant #chans self.stopChan != nil && self.clearChan != nil && self.stopChan != self.clearChan && (!self.closed ==> !chanclosed(self.stopChan)) && (!self.cleared ==> !chanclosed(self.clearChan))
-//@   invariant #sleeponlyifempty sleepers(self.cond) > 0 ==> self.ctrlList.lcnt == 0 && self.reqList.lcnt == 0 && !self.closed
+//@   invariant #sleeponlyifempty (self.closed ==> sleepers(self.cond) == 0) && (sleepers(self.cond) > 0 ==> self.ctrlList.lcnt + self.reqList.lcnt <= woken(self.cond))
 //@   invariant #clearedisclosed self.cleared ==> self.closed && self.ctrlList.lcnt == 0 && self.reqList.lcnt == 0
 //
 //@ pure errsOK() bool = ErrClosed != nil && ErrCtrlQFull != nil && ErrReqQFull != nil && ErrSync != nil && ErrClosed != ErrCtrlQFull && ErrClosed != ErrReqQFull && ErrClosed != ErrSync && ErrCtrlQFull != ErrSync && ErrReqQFull != ErrSync && ErrCtrlQFull != ErrReqQFull
@@ -70,7 +70,7 @@ package mq
 //@   ensures #nosyncerr result1 != ErrSync
 //@   modifies MQ.closed, MQ.cleared, a.ctrlList.lmem, a.ctrlList.lcnt, a.reqList.lmem, a.reqList.lcnt, list.Element.lrk, list.Element.Value, region($chanclosed), region($alloc)
 //@   loop 1
-//@     invariant wheld(a.lock) && a.ctrlList != nil && a.reqList != nil && a.ctrlList != a.reqList && lwf(a.ctrlList) && lwf(a.reqList) && sleepers(a.cond) >= 0 && woken(a.cond) >= 0 && (sleepers(a.cond) > 0 ==> a.ctrlList.lcnt == 0 && a.reqList.lcnt == 0 && !a.closed)
+//@     invariant wheld(a.lock) && a.ctrlList != nil && a.reqList != nil && a.ctrlList != a.reqList && lwf(a.ctrlList) && lwf(a.reqList) && sleepers(a.cond) >= 0 && woken(a.cond) >= 0 && (a.closed ==> sleepers(a.cond) == 0) && (sleepers(a.cond) > 0 ==> a.ctrlList.lcnt + a.reqList.lcnt <= woken(a.cond) + 1)
 //@     invariant a.stopChan != nil && a.clearChan != nil && a.stopChan != a.clearChan && (!a.closed ==> !chanclosed(a.stopChan)) && (!a.cleared ==> !chanclosed(a.clearChan)) && (a.cleared ==> a.closed && a.ctrlList.lcnt == 0 && a.reqList.lcnt == 0)
 //@     invariant same(a.ctrlList) && same(a.reqList) && a.closed == cs(a.closed) && (forall e *list.Element :: { a.ctrlList.lmem[e] } a.ctrlList.lmem[e] ==> allocated(e)) && (forall e *list.Element :: { a.reqList.lmem[e] } a.reqList.lmem[e] ==> allocated(e))
 //@ func MQ.PopAnyway
@@ -81,7 +81,7 @@ package mq
 //@   ensures #nosyncerr result1 != ErrSync
 //@   modifies MQ.closed, MQ.cleared, a.ctrlList.lmem, a.ctrlList.lcnt, a.reqList.lmem, a.reqList.lcnt, list.Element.lrk, list.Element.Value, region($chanclosed), region($alloc)
 //@   loop 1
-//@     invariant wheld(a.lock) && a.ctrlList != nil && a.reqList != nil && a.ctrlList != a.reqList && lwf(a.ctrlList) && lwf(a.reqList) && sleepers(a.cond) >= 0 && woken(a.cond) >= 0 && (sleepers(a.cond) > 0 ==> a.ctrlList.lcnt == 0 && a.reqList.lcnt == 0 && !a.closed)
+//@     invariant wheld(a.lock) && a.ctrlList != nil && a.reqList != nil && a.ctrlList != a.reqList && lwf(a.ctrlList) && lwf(a.reqList) && sleepers(a.cond) >= 0 && woken(a.cond) >= 0 && (a.closed ==> sleepers(a.cond) == 0) && (sleepers(a.cond) > 0 ==> a.ctrlList.lcnt + a.reqList.lcnt <= woken(a.cond) + 1)
 //@     invariant a.stopChan != nil && a.clearChan != nil && a.stopChan != a.clearChan && (!a.closed ==> !chanclosed(a.stopChan)) && (!a.cleared ==> !chanclosed(a.clearChan)) && (a.cleared ==> a.closed && a.ctrlList.lcnt == 0 && a.reqList.lcnt == 0)
 //@     invariant same(a.ctrlList) && same(a.reqList) && a.closed == cs(a.closed) && (forall e *list.Element :: { a.ctrlList.lmem[e] } a.ctrlList.lmem[e] ==> allocated(e)) && (forall e *list.Element :: { a.reqList.lmem[e] } a.reqList.lmem[e] ==> allocated(e))
 //
